@@ -474,8 +474,11 @@ impl Gen {
                 let hook = rng.chance(knobs.hook_pct, 100);
                 // extension list order is initialisation order, not type order: sometimes a high-numbered extension comes first
                 let meta_ptr = *rng.pick(&[0u8, 0, 1, 2, 3, 4, 5, 6]);
-                world::create_mint_2022_full(&mut l, &payer, mk, &mint_authority, 6, fee, None, hook, meta_ptr);
-                if hook {
+                // one Token-2022 mint in four also carries some of the extensions that need a token badge (close authority,
+                // permanent delegate, default account state), before or after the others
+                let extras: u8 = if rng.chance(1, 4) { 1 + rng.below(7) as u8 + 8 * rng.below(2) as u8 } else { 0 };
+                world::create_mint_2022_badged(&mut l, &payer, mk, &mint_authority, 6, fee, None, hook, meta_ptr, extras);
+                if hook || extras != 0 {
                     let ce = ix::pda_config_extension(&config);
                     if !l.exists(&ce) {
                         world::must(
@@ -509,9 +512,11 @@ impl Gen {
                         )],
                         "initialize_token_badge",
                     );
-                    ix::HOOK_MINTS.with(|h| {
-                        h.borrow_mut().insert(*mk, vec![world::hook_validation_address(mk), rt::hook_program_id()]);
-                    });
+                    if hook {
+                        ix::HOOK_MINTS.with(|h| {
+                            h.borrow_mut().insert(*mk, vec![world::hook_validation_address(mk), rt::hook_program_id()]);
+                        });
+                    }
                 }
                 mints.push(MintInfo { key: *mk, program: ix::tok22(), authority: mint_authority });
             } else {
